@@ -2005,7 +2005,26 @@ class KmipEngine(object):
             )
 
         managed_object_factory = factory.ObjectFactory()
-        managed_object = managed_object_factory.convert(secret)
+        try:
+            managed_object = managed_object_factory.convert(secret)
+        except AttributeError:
+            raise exceptions.InvalidField(
+                "The {0} object is missing a field required to register "
+                "it.".format(
+                    ''.join(
+                        [x.capitalize() for x in object_type.name.split('_')]
+                    )
+                )
+            )
+        except (TypeError, ValueError) as e:
+            raise exceptions.InvalidField(
+                "The {0} object cannot be registered: {1}".format(
+                    ''.join(
+                        [x.capitalize() for x in object_type.name.split('_')]
+                    ),
+                    str(e)
+                )
+            )
         managed_object.names = []
 
         self._set_attributes_on_managed_object(
